@@ -53,7 +53,13 @@ Fields == [
                  "dir_length", "dir_id_delta", "leaf_self_pointer", "meta_not_utf8", "truncate"},
     mbtiles |-> {"format_unknown", "format_missing", "zoom_large", "zoom_negative", "column_negative", "row_large", "data_null", "no_tiles_table",
                  "metadata_bounds_text", "metadata_json_broken", "empty_tiles"},
-    tar |-> {"size_huge", "size_garbage", "name_not_utf8", "truncated_member", "z_not_number", "y_overflow", "no_tiles", "meta_broken"},
+    tar |-> {"size_huge", "size_garbage", "name_not_utf8", "truncated_member", "z_not_number", "y_overflow", "no_tiles", "meta_broken",
+             \* member names whose numbers are just beyond / far beyond what a level has (level 32 is the first that does not exist)
+             "name:./32/0/0.pbf", "name:./33/0/0.pbf", "name:./255/0/0.pbf", "name:./256/0/0.pbf", "name:./-1/0/0.pbf", "name:./2/4/0.pbf",
+             "name:./2/0/4.pbf", "name:./2/4294967296/0.pbf", "name:./31/2147483648/0.pbf", "name:./2/1/.pbf", "name:./2//1.pbf"},
+    \* a directory of tile files with the same kinds of names
+    dir |-> {"name:32/0/0.pbf", "name:33/0/0.pbf", "name:256/0/0.pbf", "name:-1/0/0.pbf", "name:2/4/0.pbf", "name:2/0/4.pbf",
+             "name:2/4294967296/0.pbf", "name:2/x/0.pbf", "name:2/1/.pbf", "name:z/1/1.pbf", "name:2/1/1", "name:2/1/1.pbf.xyz"},
     mvt |-> {"layer_length", "feature_length", "string_length", "tags_odd", "tag_key_oob", "tag_val_oob", "no_layer_name", "value_empty",
              "unknown_wire_type", "varint_overlong", "geometry_length", "extent_huge", "packed_length", "truncate"} ]
 =============================================================================
